@@ -203,6 +203,17 @@ pub fn c06_rewards(c: &FuCtx, rec: &mut Rec) {
 }
 
 fn budget_check(c: &FuCtx, f: &fm::Farm, rec: &mut Rec) {
+    // what the reference ledger saw paid out of this farm, against the caps of the statement and the farm's own counter
+    if let Some(gf) = c.g1.farms.get(&f.identifier) {
+        let cur = c.post.cur;
+        let elapsed = if cur >= f.start_epoch { (cur.min(f.preliminary_end_epoch - 1) - f.start_epoch + 1) as u128 } else { 0 };
+        if gf.claimed > (f.emission_rate.u128() * elapsed).min(f.farm_asset.amount.u128()) {
+            rec.viol("C06_cumulative_payout_over_cap", format!("farm {}: paid {} in total > min(funded {}, rate {} x {} elapsed epochs)", f.identifier, gf.claimed, f.farm_asset.amount, f.emission_rate, elapsed));
+        }
+        if gf.claimed != f.claimed_amount.u128() {
+            rec.viol("C06_claimed_counter_ne_paid", format!("farm {}: claimed_amount {} but {} was paid out of it (after {:?})", f.identifier, f.claimed_amount, gf.claimed, c.op));
+        }
+    }
     let cur = c.post.cur;
     let elapsed = if cur >= f.start_epoch { (cur.min(f.preliminary_end_epoch - 1) - f.start_epoch + 1) as u128 } else { 0 };
     let cap = (f.emission_rate.u128() * elapsed).min(f.farm_asset.amount.u128());
